@@ -16,7 +16,7 @@ let ids s = if s = "-" then [] else List.map n_of_hex (String.split_on_char ',' 
 let order = ref 2 and saw_unk = ref true and unk_prob = ref Z0 and buckets = ref []
 let unigrams = ref [] and higher : (int * gram) list ref = ref []
 let tp = ref (LoadError MissingUnigram) and tt = ref (LoadError MissingUnigram)
-let arpa_tbl : (word list * (z * z)) list ref = ref []
+let arpa_tbl : (n list * (z * z)) list ref = ref []
 let bos_id = ref N0
 
 let err_name = function MissingContext -> "missing-context" | TableFull -> "table-full" | MissingUnigram -> "missing-unigram"
